@@ -428,7 +428,7 @@ func (f *frame) modItemTargets(it ModItem, env *specEnv, add func(heap, ref stri
 				env.fail("unknown ghost %s", sel.Name)
 			}
 			x := env.tr(sel.X)
-			add("#."+g.Owner+"."+g.Name, env.refOf(x), false)
+			add("Gh."+g.Owner+"."+g.Name, env.refOf(x), false)
 			return
 		}
 		x := env.tr(sel.X)
@@ -617,10 +617,10 @@ func (f *frame) builtin(b *ssa.Builtin, c *ssa.CallCommon, pos token.Pos, res ss
 		return Val{}
 	case "close":
 		ch := f.term(c.Args[0])
-		cl := vc.lookup(f.st, "#chan.closed", "(Array Int Bool)")
+		cl := vc.lookup(f.st, "Gh.chan.closed", "(Array Int Bool)")
 		f.oblige("safety", "close-nil:"+f.keyOf(c.Args[0], pos), nil, not(eq(ch, "0")), pos)
 		f.oblige("safety", "close-closed:"+f.keyOf(c.Args[0], pos), nil, not(sx("select", cl, ch)), pos)
-		f.st = vc.store(f.st, "#chan.closed", "(Array Int Bool)", sx("store", cl, ch, "true"))
+		f.st = vc.store(f.st, "Gh.chan.closed", "(Array Int Bool)", sx("store", cl, ch, "true"))
 		return Val{}
 	case "min", "max":
 		op := "imin"
